@@ -42,6 +42,11 @@ CHECKS.update({
    note='Synchronous mode; Close from inside callbacks and callback exactly-once are decided by the Callback module (C20 check) — see DESIGN.md.', technique='TLA+ protocol spec + TLC exhaustive; behaviour replay on real session pair with state conformance and API-result oracles'),
 })
 
+CHECKS['C20'] = dict(level=MC, engine='Callback', design='DESIGN.md §3 C20',
+   text='Callback.tla models the hand-off between the event loop (fillDataToReadBuffer / halfClose), the callback goroutines and Close() (from another goroutine or from inside OnData) at the granularity of the real code\'s scheduling points; TLC checks Serial, NoDupOffer, OrderOffer, NoStranding, NothingAfterClose (+ eventual settling under weak fairness) exhaustively per event scenario with the two listed finding classes pruned by a ghost classifier; every transition is replayed on the REAL functions (gopool.Go replaced by a scheduler thread, wait-group wait scheduler-aware) with state, callbackInProcess, callbackCloseState, wait-group count, pending/read-buffer message counts, bytes offered and callback counts compared after every step; serial execution, exactly-once/in-order offering and no stranding are evaluated on the real observations, plus seeded random interleavings.',
+   note='Messages travel through the real IO queue and handlePolling of a socket-less session pair; OnData consumes everything offered. Known findings (data followed by the peer close is never offered; Close during a callback) are pruned by classifier and their witnesses replayed every run.',
+   technique='TLA+ spec at scheduling-point granularity + TLC exhaustive; transition-cover replay on real code with state conformance; random real interleavings with oracles')
+
 PENDING = {}
 
 def main():
